@@ -2,8 +2,8 @@
 # usage: tools_seed_intake.sh C09 [C03 ...]  - copies /tmp/mut-<id>-out/{A,B} to /verif/seeded/<id>-{A,B}, confirms each, runs the property's quick check
 cd "$(dirname "$0")"
 for p in "$@"; do
-  for x in A B; do
-    src=/tmp/mut-$p-out/$x; dst=seeded/$p-$x
+  for x in ${LETTERS:-A B}; do
+    src=/tmp/${MUTDIR:-mut}-$p-out/$x; dst=seeded/$p-$x
     [ -f $src/patch.diff ] || { echo "== $p-$x: no patch"; continue; }
     mkdir -p $dst; cp $src/patch.diff $src/meta.json $dst/ 2>/dev/null; cp $src/demo.sh $dst/ 2>/dev/null
     for f in $src/*; do case "$f" in */patch.diff|*/meta.json|*/demo.sh|*.log) ;; *) [ -f "$f" ] && [ $(stat -c %s "$f") -lt 200000 ] && cp "$f" $dst/ ;; esac; done
